@@ -393,6 +393,18 @@ class Update(Spec):
         K, A = f.get("K"), f.get("A")
         ok = isinstance(K, Arr) and isinstance(A, Arr)
         out.append(("C14/C17: K, A recomputed for exactly the present particles", z3.And(V.to_z3(V.s_cmp("==", K.shape[0], n)), V.to_z3(V.s_cmp("==", A.shape[0], n))) if ok else False))
+        if ok:
+            # C02: the cached level bracket / weight of every particle is the one of ITS OWN column at ITS depth
+            from .roms_sample import Z2sKernel
+
+            st = f["modules"]["state"].attrs["variables"]
+            g = f["grid"].attrs
+            fx, fy = st["X"].fn, st["Y"].fn
+            i0, j0 = g["i0"], g["j0"]
+            kb = Args(I=Arr((n,), lambda p: V.s_round(V.s_binop("-", fx(p), i0)), "int"), J=Arr((n,), lambda p: V.s_round(V.s_binop("-", fy(p), j0)), "int"), Z=st["Z"], z_rho=g["z_r"])
+            for label, item in Z2sKernel.ensures(self, cx, kb, (K, A)):
+                if "level" in label or "depth" in label or "weight" in label or "A*z" in label:
+                    out.append(("C02/C12: cached K, A after the step: " + label.split(": ", 1)[-1], item))
         return out
 
     def model(self, cx, a):
